@@ -118,6 +118,14 @@ class G:
         lines, items = [], []
         for i in range(n):
             marker = ('%d.' % (i + 1)) if ordered else bullet
+            if rng.random() < 0.08 and (n > 1 or depth > 0):
+                # an empty item: the marker alone on its line, nothing below it
+                self.kinds['empty_item'] = self.kinds.get('empty_item', 0) + 1
+                items.append(('ListItem', len(lines), []))
+                lines.append(marker)
+                if i < n - 1 and rng.random() < 0.4:
+                    lines.append('')
+                continue
             blank_first = rng.random() < 0.2
             inner, nodes = self.blocks(depth + 1, rng.randint(1, 2), first_plain=not blank_first)
             if inner and inner[0].startswith('    ') and blank_first is False:
